@@ -78,6 +78,7 @@ def generate(tier, seed, ctx):
     g = tlkit.Gen(db, rng)
     out = []
     names = [e['name'] for e in db.values() if e['ok']]
+    longs = []                                   # (constructor, string/bytes field) pairs
     for name in names:
         e = db[name]
         sch = tl.get_by_name(name)
@@ -101,9 +102,10 @@ def generate(tier, seed, ctx):
                 continue
             k = f['t']['k']
             if k in ('bytes', 'string'):
-                for n in ([0, 1, 3, 4, 253, 254, 255] if q else [0, 1, 2, 3, 4, 252, 253, 254, 255, 256, 257, 65536]):
-                    if rng.random() < (0.35 if q else 1.0):
+                for n in ([0, 1, 3, 4, 253, 254, 255] if q else [0, 1, 2, 3, 4, 252, 253, 254, 255, 256, 257, 65535, 65536, 70001]):
+                    if rng.random() < (0.35 if q else (1.0 if n < 60000 else 0.1)):
                         vals.append(g.ctor(name, hints={f['n']: n}))
+                longs.append((name, f['n']))
                 if k == 'string' and rng.random() < (0.5 if q else 1.0):
                     # multi-byte text at the 253/254-byte boundary and in the long form (characters != bytes)
                     for txt in ('h\u00e9llo', '\u00e9' * 126 + 'a', '\u00e9' * 127, '\u20ac' * 100, '\U0001d11e' * 63 + 'ab'):
@@ -122,18 +124,26 @@ def generate(tier, seed, ctx):
             out.append(one(tl, db, name, d, boxed=True))
         if rng.random() < 0.2:
             out.append(one(tl, db, name, vals[0], boxed=False))
+    # the three-byte length of the long string form needs its third byte from 65536 bytes on (quick: a few fields)
+    if q:
+        for (name, fn), n in zip(rng.sample(longs, min(6, len(longs))), [65535, 65536, 65537, 70001, 65536, 131072]):
+            out.append(one(tl, db, name, g.ctor(name, hints={fn: n}), boxed=True))
     # BlockIdExt helpers
     for _ in range(40 if q else 1500):
         wc = rng.choice([-1, 0, 1, 2 ** 31 - 1, -2 ** 31, rng.randint(-2 ** 31, 2 ** 31 - 1)])
         shard = rng.choice([-2 ** 63, 2 ** 63 - 1, 0, -1, rng.randint(-2 ** 63, 2 ** 63 - 1)])
-        seqno = rng.choice([0, 1, 2 ** 31 - 1, rng.randint(0, 2 ** 31 - 1)])
+        seqno = rng.choice([0, 1, 2 ** 31 - 1, -1, -2 ** 31, rng.randint(0, 2 ** 31 - 1), rng.randint(-2 ** 31, -1)])   # TL int: signed 32-bit
         root, file = bytes(rng.getrandbits(8) for _ in range(32)), bytes(rng.getrandbits(8) for _ in range(32))
         rec = {'op': 'blockid', 'workchain': big(wc), 'shard': big(shard), 'seqno': big(seqno), 'root': list(root), 'file': list(file)}
         b = BlockIdExt(wc, shard, seqno, root, file)
         try:
             raw = b.to_bytes()
             rec['bytes'] = list(raw)
-            rec['rt_bytes'] = int(BlockIdExt.from_bytes(raw) == b and BlockIdExt.from_bytes(raw).to_bytes() == raw)
+            fb = BlockIdExt.from_bytes(raw)
+            rec['from_bytes'] = {'workchain': big(fb.workchain), 'shard': big(fb.shard), 'seqno': big(fb.seqno),
+                                 'root': list(fb.root_hash if isinstance(fb.root_hash, bytes) else bytes.fromhex(fb.root_hash)),
+                                 'file': list(fb.file_hash if isinstance(fb.file_hash, bytes) else bytes.fromhex(fb.file_hash))}
+            rec['rt_bytes'] = int(fb == b and fb.to_bytes() == raw)
         except Exception as e:
             rec['rt_bytes'] = 0
         try:
